@@ -1,3 +1,4 @@
+mod charsdump;
 mod mtrace;
 mod universe;
 
@@ -24,6 +25,7 @@ fn main() {
     let universe = get("universe", "/verif/lib/universe.txt");
     match cmd.as_str() {
         "chardb" => universe::write_chardb(&universe, &get("out", "/verif/work/chardb.ndjson")),
+        "chars-dump" => charsdump::run(&get("out", "/verif/work/charsdump.ndjson")),
         "matcher-trace" => {
             let plan = mtrace::Plan {
                 tier: get("tier", "quick"),
